@@ -245,6 +245,9 @@ func GetKeyFields(fields []string) (allFields []string, nonRootFields []string) 
 
 	for _, field := range fields {
 		switch {
+		case field == "":
+			// An empty name can never match a field; a rules file may still contain one
+			// (FieldList: [""]), so it must not be indexed below.
 		case field[0] == RootPrefixFirstChar && strings.HasPrefix(field, RootPrefix):
 			// If the field starts with "root.", add it to rootFields
 			rootFields = append(rootFields, field[len(RootPrefix):])
